@@ -164,10 +164,14 @@ var keyPool = map[string]poolKey{
 	"K5":  {"k5", 7, []string{"s2"}, "pub", "c5"},
 	"K1b": {"k1", 7, []string{"s1", "s2", "s3"}, "pub", "c1b"},
 	"K6":  {"k6", 7, []string{"s1", "s2", "s3"}, "pub", "c6"},
+	"K7":  {"k7", 9, []string{"s1", "s4"}, "pub", "c7"},
 	"KX":  {"kx", 7, []string{"s1", "s2", "s3"}, "pub", "cx"}, // config bytes of an unknown version: held, never usable
 }
 
-var suiteAEAD = map[string]uint16{"s1": 1, "s2": 2, "s3": 3}
+var suiteAEAD = map[string]uint16{"s1": 1, "s2": 2, "s3": 3, "s4": 1}
+
+// s4: HKDF-SHA384 with AES-128-GCM - a registered suite the library's HPKE does not implement
+var suiteKDF = map[string]uint16{"s1": 1, "s2": 1, "s3": 1, "s4": 2}
 
 type keyring struct {
 	mu    sync.Mutex
@@ -177,7 +181,7 @@ type keyring struct {
 
 func newKeyring(seed int64) *keyring {
 	kr := &keyring{privs: map[string]*ecdh.PrivateKey{}, cfgs: map[string][]byte{}}
-	for _, kid := range []string{"k1", "k2", "k3", "k4", "k5", "k6", "kx"} {
+	for _, kid := range []string{"k1", "k2", "k3", "k4", "k5", "k6", "k7", "kx"} {
 		h := sha256.Sum256([]byte(fmt.Sprintf("verif-key-%s-%d", kid, seed)))
 		p, err := ecdh.X25519().NewPrivateKey(h[:])
 		if err != nil {
@@ -188,7 +192,7 @@ func newKeyring(seed int64) *keyring {
 	for _, pk := range keyPool {
 		var cs []ech.CipherSuite
 		for _, s := range pk.suites {
-			cs = append(cs, ech.CipherSuite{KDF: 1, AEAD: suiteAEAD[s]})
+			cs = append(cs, ech.CipherSuite{KDF: suiteKDF[s], AEAD: suiteAEAD[s]})
 		}
 		if pk.cfg == "c1b" { // other config bytes for the same key material
 			cs = append(cs, ech.CipherSuite{KDF: 1, AEAD: 0xffff})
@@ -251,7 +255,7 @@ func keyOptions(keys []ech.Key) []ech.Option {
 
 func hpkeAEAD(s string) hpke.AEAD {
 	switch s {
-	case "s1":
+	case "s1", "s4":
 		return hpke.AES128GCM()
 	case "s2":
 		return hpke.AES256GCM()
@@ -279,7 +283,11 @@ func (s *sealer) sender(kid, encid, suite, info string) (*hpke.Sender, []byte) {
 	if err != nil {
 		panic(err)
 	}
-	enc, snd, err := hpke.NewSender(pk, hpke.HKDFSHA256(), hpkeAEAD(suite), append([]byte("tls ech\x00"), s.kr.cfgs[info]...))
+	kdf := hpke.HKDFSHA256()
+	if suiteKDF[suite] == 2 {
+		kdf = hpke.HKDFSHA384()
+	}
+	enc, snd, err := hpke.NewSender(pk, kdf, hpkeAEAD(suite), append([]byte("tls ech\x00"), s.kr.cfgs[info]...))
 	if err != nil {
 		panic(err)
 	}
@@ -432,7 +440,8 @@ func (s *sealer) extBody(h *aHello, x aExt, o encOpts, op string, zeroPayloadLen
 		case "outer0":
 			return []byte{0, 0, 1, 0, 1, 7, 0, 0, 0, 1, 0}
 		case "outer":
-			d := []byte{0, 0, 1}
+			d := []byte{0}
+			d = be16(d, int(suiteKDF[e.Suite]))
 			d = be16(d, int(suiteAEAD[e.Suite]))
 			d = append(d, byte(e.Cid))
 			d = vec16(d, s.encBytes(e.Enc, e.Ct))
